@@ -33,7 +33,15 @@ fn norm_panic(m: &str) -> String {
 }
 
 fn one_type<'s, I: Kind<'s>, R: Er<'s, I>>(g: &G, mk: &dyn Fn() -> I, budget: u64, len: usize, is_cb: &dyn Fn(usize) -> bool) -> Result<(bool, usize, u64), (String, String)> {
-    let p = build::<I, R>(g, false);
+    // recursive grammars: recursive(), declare / define, and declare / define with the declaring handle dropped
+    let style = [RecStyle::Func, RecStyle::DeclareDefine, RecStyle::EarlyClone][g.size() % 3];
+    let p = match quietly(|| build_with::<I, R>(g, false, style)) {
+        Ok(p) => p,
+        Err(_) => {
+            let m = LAST_PANIC.with(|p| p.borrow_mut().take()).unwrap_or_default();
+            return Err((format!("C20/panic:{}", norm_panic(&m)), format!("building the parser (error type {}) panicked: {}", R::NAME, m)));
+        }
+    };
     let mut work = 0;
     let mut shape = (false, 0usize);
     for check_mode in [false, true] {
@@ -423,6 +431,19 @@ fn text_case(s: &str, l: &mut Local) -> Result<(), (String, String)> {
     total!("any.repeated.to_slice", any::<&str, E>().repeated().at_most(3).to_slice().then(any().repeated().to_slice()), s);
     total!("regex", chumsky::regex::regex::<&str, E>("[a-z0-9é]+|.").repeated().at_most(8).to_slice().then(any().repeated()), s);
     total!("regex/u8", chumsky::regex::regex::<&[u8], EB>("[a-z0-9]+").or_not().then(any().repeated()).to_slice(), bytes);
+    // byte-oriented patterns: if the library accepts such a pattern at all (at this commit regex() refuses them when the
+    // parser is built), a match must never end inside a multi-byte character of a &str input
+    for pat in ["(?-u:[^,])", "(?s-u:.{2})", "(?-u:\\W)", "(?s-u:.)"] {
+        match quietly(|| chumsky::regex::regex::<&str, E>(pat)) {
+            Err(_) => {
+                let _ = LAST_PANIC.with(|p| p.borrow_mut().take());
+                l.bump("byte_mode_regex_refused_at_construction");
+            }
+            Ok(rx) => {
+                total!("regex (byte-oriented pattern)", rx.clone().repeated().at_most(3).to_slice().then(any().repeated().to_slice()), s);
+            }
+        }
+    }
     // Graphemes input
     {
         use chumsky::text::{Grapheme, Graphemes};
@@ -768,7 +789,7 @@ pub fn run_child_passthrough(args: &[&str], timeout_s: u64, mem_kib: u64, env: &
     use std::io::Read;
     use std::process::{Command, Stdio};
     let exe = std::env::current_exe().expect("current_exe");
-    let cmd = format!("ulimit -v {}; exec \"{}\" worker {}", mem_kib, exe.display(), args.join(" "));
+    let cmd = if mem_kib > 0 { format!("ulimit -v {}; exec \"{}\" worker {}", mem_kib, exe.display(), args.join(" ")) } else { format!("exec \"{}\" worker {}", exe.display(), args.join(" ")) };
     let mut c = Command::new("sh");
     c.arg("-c").arg(&cmd).stdout(Stdio::piped()).stderr(Stdio::inherit());
     for (k, v) in env {
